@@ -1,8 +1,217 @@
-/-! Line-protocol driver for component `Versions` (stub; the component owner replaces `run`). -/
+import Lean.Data.Json
+import PSO.Model.Versions
+
+/-! Line-protocol driver for component `versions` (C17).
+
+One JSON object per input line, one JSON object per output line.
+
+Stateless ops
+* `{"op":"ids","cls":CLS}` → `{"ids":[[ver,obj,NAME]…],"selfVer":n}`
+* `{"op":"table","cls":CLS,"enabled":e}` → `{"table":[[obj,ORIG,NAME,id|null]…]}` (in `keys` order)
+
+Node ops (one current node)
+* `{"op":"node","cls":CLS,"enabled":e,"tableVer":t,"lastApplied":a,"commit":c,"log":[ENTRY…],"waiting":[[idx,[[term,cb]…]]…]}`
+* `{"op":"init","cls":CLS}`
+* `{"op":"setCommit","v":n}`, `{"op":"append","entries":[ENTRY…]}`, `{"op":"subscribe","idx":i,"term":t,"cb":c}`
+* `{"op":"apply"}` → `{"ev":[…],"state":STATE}`
+* `{"op":"setver","v":n}` → `{"setver":["tooHigh",self,req] | ["tooLow",enabled,req] | ["queued",v]}`
+* `{"op":"dump","user":bool}` → `{"dump":null | {"enabled":e|null,"prev":ENTRY,"last":ENTRY}}` (remembered)
+* `{"op":"load","clear":bool}` → `{"state":STATE}` (loads the remembered dump into the current node)
+* `{"op":"compact"}` → `{"state":STATE}` (second phase of the compaction for the remembered dump)
+* `{"op":"restart","cls":CLS,"keepLog":bool}` → fresh node on code CLS (log and commit kept when `keepLog`)
+* `{"op":"state"}` → `{"state":STATE}`
+
+CLS = `[[obj,ORIG,ver]…]`, NAME/ORIG = list of code points, ENTRY = `[CMD,idx,term]`,
+CMD = `["noop"] | ["mem"] | ["ver",v] | ["reg",id,arg] | ["other",t]`.
+-/
 namespace Driver.Versions
+open Lean PSO.Versions
+
+def jNat (j : Json) : Except String Nat := j.getNat?
+def jArr (j : Json) : Except String (Array Json) := j.getArr?
+
+def jName (j : Json) : Except String PSO.Versions.Name := do
+  let a ← jArr j
+  a.toList.mapM jNat
+
+def jDecl (j : Json) : Except String Decl := do
+  let a ← jArr j
+  if a.size != 3 then throw "decl: need 3 fields"
+  return ⟨← jNat a[0]!, ← jName a[1]!, ← jNat a[2]!⟩
+
+def jCls (j : Json) : Except String ClassDef := do
+  let a ← jArr j
+  a.toList.mapM jDecl
+
+def jCmd (j : Json) : Except String Cmd := do
+  let a ← jArr j
+  if a.size == 0 then throw "cmd: empty"
+  let k ← a[0]!.getStr?
+  match k, a.size with
+  | "noop", 1 => return .noop
+  | "mem", 1 => return .membership
+  | "ver", 2 => return .version (← jNat a[1]!)
+  | "reg", 3 => return .regular (← jNat a[1]!) (← jNat a[2]!)
+  | "other", 2 => return .other (← jNat a[1]!)
+  | _, _ => throw s!"cmd: bad {k}"
+
+def jEntry (j : Json) : Except String Entry := do
+  let a ← jArr j
+  if a.size != 3 then throw "entry: need 3 fields"
+  return ⟨← jCmd a[0]!, ← jNat a[1]!, ← jNat a[2]!⟩
+
+def jEntries (j : Json) : Except String (List Entry) := do
+  (← jArr j).toList.mapM jEntry
+
+def jWaiting (j : Json) : Except String (List (Nat × List (Nat × Nat))) := do
+  (← jArr j).toList.mapM fun p => do
+    let a ← jArr p
+    if a.size != 2 then throw "waiting: need 2 fields"
+    let subs ← (← jArr a[1]!).toList.mapM fun s => do
+      let b ← jArr s
+      if b.size != 2 then throw "sub: need 2 fields"
+      return (← jNat b[0]!, ← jNat b[1]!)
+    return (← jNat a[0]!, subs)
+
+def nat (n : Nat) : Json := Json.num (JsonNumber.fromNat n)
+def name (n : PSO.Versions.Name) : Json := Json.arr (n.map nat).toArray
+def desc (d : Desc) : Json := Json.arr #[nat d.ver, nat d.obj, name d.name]
+def optNat : Option Nat → Json
+  | none => Json.null
+  | some n => nat n
+
+def cmd : Cmd → Json
+  | .noop => Json.arr #[Json.str "noop"]
+  | .membership => Json.arr #[Json.str "mem"]
+  | .version v => Json.arr #[Json.str "ver", nat v]
+  | .regular f a => Json.arr #[Json.str "reg", nat f, nat a]
+  | .other t => Json.arr #[Json.str "other", nat t]
+
+def entry (e : Entry) : Json := Json.arr #[cmd e.cmd, nat e.idx, nat e.term]
+
+def res : Option (Desc × Nat) → Json
+  | none => Json.null
+  | some (d, a) => Json.arr #[desc d, nat a]
+
+def ev : Ev → Json
+  | .ran i d a => Json.arr #[Json.str "ran", nat i, desc d, nat a]
+  | .callback cb r ok => Json.arr #[Json.str "cb", nat cb, res r, Json.bool ok]
+  | .versionChanged o n => Json.arr #[Json.str "verChanged", nat o, nat n]
+  | .wrongVer s r => Json.arr #[Json.str "wrongVer", nat s, nat r]
+  | .unknownId i f => Json.arr #[Json.str "unknownId", nat i, nat f]
+  | .blocked e s => Json.arr #[Json.str "blocked", nat e, nat s]
+
+def tableJson (cls : ClassDef) (e : Nat) : Json :=
+  Json.arr ((keys cls).filterMap fun k =>
+    (funcName cls e k).map fun nm =>
+      Json.arr #[nat k.obj, name k.orig, name nm, optNat (callId cls e k)]).toArray
+
+def state (n : Node) : Json :=
+  Json.mkObj [
+    ("enabled", nat n.enabled), ("tableVer", nat n.tableVer), ("lastApplied", nat n.lastApplied),
+    ("commit", nat n.commit), ("selfVer", nat (selfCodeVersion n.cls)),
+    ("log", Json.arr (n.log.map entry).toArray),
+    ("waiting", Json.arr (n.waiting.map fun p =>
+        Json.arr #[nat p.1, Json.arr (p.2.map fun s => Json.arr #[nat s.1, nat s.2]).toArray]).toArray),
+    ("table", tableJson n.cls n.tableVer)]
+
+structure St where
+  node : Node := initNode []
+  dump : Option Dump := none
+
+def field (j : Json) (k : String) : Except String Json := j.getObjVal? k
+
+def step (st : St) (j : Json) : Except String (St × Json) := do
+  let op ← (← field j "op").getStr?
+  match op with
+  | "ids" =>
+    let cls ← jCls (← field j "cls")
+    return (st, Json.mkObj [("ids", Json.arr ((idToMethod cls).map desc).toArray),
+                            ("selfVer", nat (selfCodeVersion cls))])
+  | "table" =>
+    let cls ← jCls (← field j "cls")
+    let e ← jNat (← field j "enabled")
+    return (st, Json.mkObj [("table", tableJson cls e)])
+  | "node" =>
+    let n : Node := {
+      cls := ← jCls (← field j "cls"), enabled := ← jNat (← field j "enabled"),
+      tableVer := ← jNat (← field j "tableVer"), lastApplied := ← jNat (← field j "lastApplied"),
+      commit := ← jNat (← field j "commit"), log := ← jEntries (← field j "log"),
+      waiting := ← jWaiting (← field j "waiting") }
+    return ({ st with node := n }, Json.mkObj [("state", state n)])
+  | "init" =>
+    let n := initNode (← jCls (← field j "cls"))
+    return ({ st with node := n }, Json.mkObj [("state", state n)])
+  | "setCommit" =>
+    let n := { st.node with commit := ← jNat (← field j "v") }
+    return ({ st with node := n }, Json.mkObj [("ok", Json.bool true)])
+  | "append" =>
+    let n := { st.node with log := st.node.log ++ (← jEntries (← field j "entries")) }
+    return ({ st with node := n }, Json.mkObj [("ok", Json.bool true)])
+  | "subscribe" =>
+    let idx ← jNat (← field j "idx")
+    let sub := (← jNat (← field j "term"), ← jNat (← field j "cb"))
+    let w := st.node.waiting
+    let w' := if w.any (fun p => p.1 == idx) then w.map (fun p => if p.1 == idx then (p.1, p.2 ++ [sub]) else p)
+              else w ++ [(idx, [sub])]
+    return ({ st with node := { st.node with waiting := w' } }, Json.mkObj [("ok", Json.bool true)])
+  | "apply" =>
+    let (n, evs) := applyLogEntries st.node
+    return ({ st with node := n }, Json.mkObj [("ev", Json.arr (evs.map ev).toArray), ("state", state n)])
+  | "setver" =>
+    let r := match setCodeVersion st.node (← jNat (← field j "v")) with
+      | .tooHigh s q => Json.arr #[Json.str "tooHigh", nat s, nat q]
+      | .tooLow e q => Json.arr #[Json.str "tooLow", nat e, nat q]
+      | .queued v => Json.arr #[Json.str "queued", nat v]
+    return (st, Json.mkObj [("setver", r)])
+  | "dump" =>
+    let user ← (← field j "user").getBool?
+    let d := takeDump st.node user
+    let dj := match d with
+      | none => Json.null
+      | some d => Json.mkObj [("enabled", optNat d.enabled), ("prev", entry d.prev), ("last", entry d.last)]
+    return ({ st with dump := d }, Json.mkObj [("dump", dj)])
+  | "load" =>
+    let clear ← (← field j "clear").getBool?
+    match st.dump with
+    | none => throw "load: no dump"
+    | some d =>
+      let n := loadDump st.node d clear
+      return ({ st with node := n }, Json.mkObj [("state", state n)])
+  | "compact" =>
+    match st.dump with
+    | none => throw "compact: no dump"
+    | some d =>
+      let n := finishCompaction st.node d
+      return ({ st with node := n }, Json.mkObj [("state", state n)])
+  | "restart" =>
+    let cls ← jCls (← field j "cls")
+    let keep ← (← field j "keepLog").getBool?
+    let n0 := initNode cls
+    let n := if keep then { n0 with log := st.node.log, commit := st.node.commit } else n0
+    return ({ st with node := n }, Json.mkObj [("state", state n)])
+  | "state" => return (st, Json.mkObj [("state", state st.node)])
+  | _ => throw s!"unknown op {op}"
+
+partial def loop (h : IO.FS.Stream) (out : IO.FS.Stream) (st : St) : IO Unit := do
+  let line ← h.getLine
+  if line.isEmpty then return
+  let l := line.trimAscii.toString
+  if l.isEmpty then
+    loop h out st
+  else
+    match Json.parse l >>= step st with
+    | .ok (st', r) =>
+      out.putStrLn r.compress
+      out.flush
+      loop h out st'
+    | .error e =>
+      out.putStrLn (Json.mkObj [("error", Json.str e)]).compress
+      out.flush
+      loop h out st
 
 def run : IO UInt32 := do
-  IO.eprintln "driver component Versions: not implemented"
-  return 3
+  loop (← IO.getStdin) (← IO.getStdout) {}
+  return 0
 
 end Driver.Versions
